@@ -131,7 +131,7 @@ static int32_t buf_wr_str(struct jls_buf_s * self, const char * src, char ** dst
             *dst = NULL;
         }
     } else {
-        jls_buf_string_save(self, src, dst);
+        ROE(jls_buf_string_save(self, src, dst));
     }
     return jls_buf_wr_str(self, src);
 }
@@ -210,10 +210,10 @@ int32_t jls_wr_signal_def(struct jls_wr_s * self, const struct jls_signal_def_s 
     info->signal_def = *signal;
     struct jls_signal_def_s * def = &info->signal_def;
     if (NULL != signal->name) {
-        jls_buf_string_save(buf, signal->name, (char **) &def->name);
+        ROE(jls_buf_string_save(buf, signal->name, (char **) &def->name));
     }
     if (NULL != signal->units) {
-        jls_buf_string_save(buf, signal->units, (char **) &def->units);
+        ROE(jls_buf_string_save(buf, signal->units, (char **) &def->units));
     }
     ROE(jls_core_signal_def_validate(def));
     ROE(jls_core_signal_def_align(def));
